@@ -30,6 +30,7 @@ void harness(void) {
     /* a constant array (min == max) is both ascending and descending: Analyze reports ascending */
     VP_ASSUME(minValue != maxValue || (sortedness == 1 && trueUnique == 1));
     VP_ASSUME(trueUnique != 1 || minValue == maxValue);
+    VP_ASSUME(trueUnique - 1 <= maxValue - minValue); /* distinct values need room */
     varintAdaptiveDataStats s;
     s.count = count;
     s.minValue = minValue;
